@@ -99,6 +99,9 @@ func genCase(i int, r *rand.Rand) caseCfg {
 	c.Pipeline = (i/(2*len(schedKinds)))%2 == 1
 	c.Nodes = 3 + r.Intn(3)
 	c.MultiKey = r.Intn(3) == 0
+	if c.Sched == "ask" {
+		c.MultiKey = r.Intn(3) != 0 // the ASK window is where multi-key commands are refused (TRYAGAIN)
+	}
 	c.SlowRefresh = r.Intn(2) == 0
 	c.BatchCount = []uint{3, 7, 20, 100}[r.Intn(4)]
 	if c.Sched == "moved-mid" && c.BatchCount < 7 {
@@ -371,6 +374,26 @@ func genWorkload(r *rand.Rand, cc caseCfg, tags []*tagT, hist string) *workload 
 			args = [][]byte{b(keys[0]), b(keys[1])}
 		}
 		emit(name, args, keys, id, g)
+		// schedule "ask": a multi-key command is often followed at once by a single-key write on
+		// its first key — what a refused (TRYAGAIN) command must not be overtaken by
+		if cc.Sched == "ask" && len(keys) > 1 && r.Intn(4) != 0 {
+			id2 := fmt.Sprintf("~%s.%d~", hist, nextID)
+			nextID++
+			k := keys[0]
+			v := b(id2 + "v" + strconv.Itoa(r.Intn(1000)))
+			switch k[strings.LastIndexByte(k, ':')+1:] {
+			case "s1", "s2":
+				emit("append", [][]byte{b(k), v}, []string{k}, id2, g)
+			case "l":
+				emit("rpush", [][]byte{b(k), v}, []string{k}, id2, g)
+			case "h":
+				emit("hset", [][]byte{b(k), b("f"), v}, []string{k}, id2, g)
+			case "e":
+				emit("sadd", [][]byte{b(k), v}, []string{k}, id2, g)
+			default:
+				emit("zadd", [][]byte{b(k), b("1.5"), v}, []string{k}, id2, g)
+			}
+		}
 	}
 	add(gen.KSelect, "SELECT", [][]byte{b("0")}, "", -1)
 	groups := 0
@@ -890,7 +913,7 @@ func oneCase(run *harness.Run, key string, idx int, r *rand.Rand, cc caseCfg) {
 
 	// monitors on the double: keep-alive pings, the stored resume offset reaching the end of the
 	// stream, and (schedule moved-between) the applications of the first part of the stream
-	var pings atomic.Int64
+	var pings, tryAgainSettled atomic.Int64
 	pingCh := make(chan struct{}, 1)
 	cl.SetOnRequest(func(q *fakeredis.CReq) {
 		if q.Cmd == "PING" {
@@ -898,6 +921,23 @@ func oneCase(run *harness.Run, key string, idx int, r *rand.Rand, cc caseCfg) {
 			select {
 			case pingCh <- struct{}{}:
 			default:
+			}
+		}
+		// schedule "ask": a -TRYAGAIN served for a slot ends that slot's migration window at once
+		// (the keys still on the old owner are carried over, SETSLOT NODE): a client that repeats
+		// the refused command a moment later finds the slot settled.  Called under the cluster
+		// lock, so the change itself is made right after this request.
+		if cc.Sched == "ask" {
+			if e, isErr := q.Reply.(fakeredis.Err); isErr && strings.HasPrefix(string(e), "TRYAGAIN") && len(q.Args) > 0 {
+				slot := ref.HashSlot(q.Args[0])
+				tryAgainSettled.Add(1)
+				go cl.Update(func(t *fakeredis.Topo) {
+					to := t.MigratingTo(slot)
+					if to < 0 {
+						return
+					}
+					t.SetSlotOwner(slot, to)
+				})
 			}
 		}
 	})
@@ -1366,13 +1406,25 @@ func oneCase(run *harness.Run, key string, idx int, r *rand.Rand, cc caseCfg) {
 				if oq := reqByGReq[s.greq]; jq != nil && oq != nil && jq.Node == oq.Node && jq.Conn == oq.Conn {
 					via = "same-pipeline"
 				}
-				sig := fmt.Sprintf("order|%s|%s|jumped-over=%s|successor=%s", cls, modeSig(cc), jumped, via)
+				// how the run dealt with it: reported-error = Send returned an error and the stored
+				// resume position does not cover the overtaken command (the restart re-applies it
+				// and what follows); acknowledged = nothing was reported (the run went on to the end
+				// of the stream) or the stored resume position already lies beyond the overtaken
+				// command — the disorder stays
+				dealt := "acknowledged"
+				over := st.Cmds[w.byID[exp[prev+1]].cmd]
+				if oc.kind == "error" && cp <= base+over.Start {
+					dealt = "reported-error"
+				}
+				sig := fmt.Sprintf("order|%s|%s|jumped-over=%s|successor=%s|run=%s", cls, modeSig(cc), jumped, via, dealt)
 				if cc.Sched == connReset || cc.Sched == connLost {
 					sig += "|after=" + cc.Sched // behind a connection fault, not a redirect
 				}
 				viol(sig, key,
-					fmt.Sprintf("key %q: command #%d took effect right after #%d (of %d) — %s; #%d had been answered %q by then, the overtaking command ran %s [schedule %s]",
-						k, s.p, prev, len(exp), cls, prev+1, jumped, via, cc.Sched),
+					fmt.Sprintf("key %q: command #%d took effect right after #%d (of %d) — %s; #%d had been answered %q by then, the overtaking command ran %s; the run %s it (outcome %s/%s, stored resume offset %d, overtaken command starts at %d) [schedule %s]",
+						k, s.p, prev, len(exp), cls, prev+1, jumped, via,
+						map[string]string{"acknowledged": "acknowledged", "reported-error": "reported an error and will re-apply"}[dealt],
+						oc.kind, errClass(oc.err), cp, base+over.Start, cc.Sched),
 					witness(k, prev+1))
 				break
 			}
@@ -1461,6 +1513,9 @@ func oneCase(run *harness.Run, key string, idx int, r *rand.Rand, cc caseCfg) {
 	run.Seen("outcomes", oSig)
 	if !fired {
 		run.Count("runs_schedule_not_reached", 1)
+	}
+	if n := tryAgainSettled.Load(); n > 0 {
+		run.Count("ask_windows_closed_right_after_a_TRYAGAIN", n)
 	}
 	if w.lost != nil {
 		run.Count("conn_lost_before_reply_runs", 1)
